@@ -38,7 +38,8 @@ def run(rep, pool, driver, tier):
         if r.random() < 0.55:
             tasks.append({'op': 'activation', 'kind': 'matrix', 'outcomes': outs, 'cues': cues, 'vals': vals,
                           'events': evs, 'policy': policy, 'ignore_missing': r.random() < 0.5,
-                          'n_jobs': r.choice([1, 1, 2, 3, 6]), 'as_generator': r.random() < 0.3})
+                          'n_jobs': r.choice([1, 1, 2, 3, 6]), 'as_generator': r.random() < 0.3,
+                          'layout': r.choice(['c', 'c', 'f', 'transposed', 'slice'])})
         else:
             rows = []
             for oi, o in enumerate(outs):
@@ -57,6 +58,7 @@ def run(rep, pool, driver, tier):
             rep.count('events_with_repeated_cue')
         if t['kind'] == 'matrix':
             rep.count('n_jobs:%d' % t['n_jobs'])
+            rep.count('layout:' + t['layout'])
             rep.count('ignore_missing:%s' % t['ignore_missing'])
         prob = None
         if 'err' in model or 'err' in impl:
